@@ -262,7 +262,7 @@ func modelNorm(rows []Row, dropPercent bool) []Row {
 		}
 		out[i] = nr
 	}
-	return out
+	return dropEmpty(out)
 }
 
 // ---- non-trivial rule ---------------------------------------------------------------------------
@@ -404,7 +404,7 @@ func checkL1(c *l1Case, o *pt.Obs) error {
 		o.Class("order_set")
 	}
 
-	if knownSkip(c.Chain, o) {
+	if knownSkip(c.Chain, o, false) {
 		return nil
 	}
 	ref := runChain(text, tb, c.Parts[0])
@@ -450,6 +450,12 @@ func checkL1(c *l1Case, o *pt.Obs) error {
 			cutInside = true
 		}
 		head := fmt.Sprintf("chain: %s\npartition %d %v\nvs the same table served as one batch of one stream", text, i+1, p)
+		if (r.Err != "") != (ref.Err != "") && hasHead(c.Chain) && !strings.HasPrefix(r.Err, "PANIC") {
+			// A row-level evaluation error (e.g. len of a null) upstream of a head: whether the failing
+			// row is ever evaluated depends on how early head stops the stream. Not asserted.
+			o.Class("error_depends_on_early_exit")
+			continue
+		}
 		if (r.Err != "") != (ref.Err != "") {
 			return fmt.Errorf("%s\none run fails and the other does not:\n  partitioned: err=%q\n  one batch:   err=%q\ntable:\n%s",
 				head, r.Err, ref.Err, rowsText(tb.modelRows()))
@@ -522,12 +528,26 @@ func checkL1(c *l1Case, o *pt.Obs) error {
 
 // knownSkip is the single place where listed open findings (known_findings.jsonl) are excluded:
 // exactly the class named by the entry's predicate, and only while the entry is open.
-func knownSkip(chain []*Cmd, o *pt.Obs) bool {
+func knownSkip(chain []*Cmd, o *pt.Obs, endToEnd bool) bool {
 	for _, cmd := range chain {
 		if (cmd.Op == "top" || cmd.Op == "rare") && cmd.HasN && len(cmd.By) > 0 {
 			if pt.KnownFindingOpen("C06-toprare-limit-by") {
 				o.Known("C06-toprare-limit-by")
 				return true
+			}
+		}
+	}
+	if endToEnd {
+		twoPass := false
+		for _, cmd := range chain {
+			if cmd.Op == "fillnull" && len(cmd.Fields) == 0 {
+				twoPass = true
+			}
+			if cmd.Op == "sort" && twoPass {
+				if pt.KnownFindingOpen("C06-twopass-then-sort-empty") {
+					o.Known("C06-twopass-then-sort-empty")
+					return true
+				}
 			}
 		}
 	}
@@ -546,7 +566,7 @@ func knownSkip(chain []*Cmd, o *pt.Obs) bool {
 	bottleneck := false
 	for _, cmd := range chain {
 		switch cmd.Op {
-		case "sort", "stats", "top", "rare":
+		case "sort", "stats", "top", "rare", "tail":
 			bottleneck = true
 		case "fillnull":
 			if bottleneck && len(cmd.Fields) == 0 {
@@ -555,6 +575,15 @@ func knownSkip(chain []*Cmd, o *pt.Obs) bool {
 					return true
 				}
 			}
+		}
+	}
+	return false
+}
+
+func hasHead(chain []*Cmd) bool {
+	for _, c := range chain {
+		if c.Op == "head" {
+			return true
 		}
 	}
 	return false
